@@ -45,6 +45,16 @@ def applyWrap (g : Gen Int) (w : String) : Option (Gen Int) :=
   else if w.startsWith "deferP" then (parseFault (w.drop 6).toString).map (fun e => deferG (.panic e))
   else none
 
+/-- the refused notifications of a chain of stages over a synchronous source, stage by stage: what
+    stage k delivers (its gated output) is the script stage k+1 sees; each stage's own run records what
+    its upstream subscriber and the subscriber below it refused. Sorted (the harness sorts the same
+    strings): the refusals of different stages interleave in time. -/
+def stageDrops (stages : List Chain.AnyM) (sub : Ctx) (script : List (Notif Int)) : List String :=
+  let acc := stages.foldl (fun (acc : List (Notif Int) × List String) a =>
+    let r := runOp a.m .sync sub acc.1
+    (r.out, acc.2 ++ r.drops.map renderDrop)) (script, [])
+  acc.2.foldr insertSorted []
+
 def parseWraps (s : String) : List String := if s == "-" || s == "" then [] else s.splitOn ","
 
 def run (c : Case) : String :=
@@ -71,6 +81,8 @@ def run (c : Case) : String :=
           | some a =>
             let r := g.pipe a.m sub
             let tr := renderTrace r.out
-            s!"res {c.id} trace={tr} drops={renderDrops r.drops} t2={tr} calls={calls}"
+            let dr := if stages.length ≤ 1 then renderDrops r.drops
+              else (let l := stageDrops stages sub ((g sub).raw sub); if l.isEmpty then "-" else ",".intercalate l)
+            s!"res {c.id} trace={tr} drops={dr} t2={tr} calls={calls}"
 
 end Ro.Driver.Drivers.Create
